@@ -8,4 +8,4 @@ cd /verif
 ./check "$ID" --tier "$TIER" >/tmp/trymut.out 2>/tmp/trymut.err; RC=$?
 grep -E "VIOLATION|KNOWN" /tmp/trymut.out | head -3
 echo "rc=$RC"; grep -E "^\[$ID\]|CHECK-ERROR|\"what\"" /tmp/trymut.err | head -4
-git -C /repo checkout -- . ; git -C /repo status --short | head -3
+git -C /repo checkout -- . ; python3 /verif/lib/extract.py >/dev/null; git -C /repo status --short | head -3
